@@ -42,8 +42,17 @@ def gen_op(r, segm_labels, ny, nx):
         return [r.choice(pool) for _ in range(r.randint(1, 2))]
     rl = r.random() < 0.4
     if t < 0.30:
-        what = r.choice(['labels', 'slices', 'areas', 'nlabels', 'max'])
+        what = r.choice(['labels', 'slices', 'areas', 'nlabels', 'max', 'segments'])
         def f(s):
+            if what == 'segments':
+                # reading the per-label Segment objects (their cut-outs, masked cut-outs, array form, areas) is a READ: in the model it is
+                # the `labels` read, and the label array compared after the step must be unchanged (seed C05-r8 wrote through a view)
+                try:
+                    for sg in s.segments:
+                        _ = (sg.data, sg.data_ma, np.asarray(sg), sg.area, sg.make_cutout(np.zeros(s.data.shape)))
+                except Exception:                               # noqa: BLE001  (labels in several pieces: F2b)
+                    pass
+                return 'ok ' + show_nats(s.labels)
             if what == 'labels':
                 return 'ok ' + show_nats(s.labels)
             if what == 'slices':
@@ -53,7 +62,7 @@ def gen_op(r, segm_labels, ny, nx):
             if what == 'nlabels':
                 return f'ok {int(s.nlabels)}'
             return f'ok {int(s.max_label)}'
-        return f'segm.read {what}', f, 'read:' + what
+        return f"segm.read {'labels' if what == 'segments' else what}", f, 'read:' + what
     if t < 0.42:
         ls = pick_labels()
         new = r.choice(pool + [300] + labs)
